@@ -127,8 +127,12 @@ package clickhouse_planner
 
 // ---------------------------------------------------------------- line filters (C07 operator mapping, C14 re-execution)
 
+// reCaseInsensitive(v): the expression v is a plain literal under (?i) - what the second
+// result of re2Like reports (assumed: re2Like is not verified).
+//@ spec fn reCaseInsensitive(v string) bool
 //@ func (*LineFilterPlanner).re2Like
 //@   modifies nothing
+//@   ensures result1 <==> reCaseInsensitive(l.Val)
 // Substring filters become like(...)/notLike(...) == 1 on a raw SQL expression (never a match() node).
 //@ spec fn isRawCmp(c sql.SQLCondition) bool = typeis(c, "*sql.LogicalOp") && len(unbox(c, "*sql.LogicalOp").clauses) == 2 && typeis(unbox(c, "*sql.LogicalOp").clauses[0], "*sql.RawObject")
 // sqlLit(s): the SQL string literal StringVal renders for s (quotes included).
@@ -164,6 +168,9 @@ package clickhouse_planner
 // become match(string, pattern) == 1 for |~ and == 0 for !~.
 //@ func (*LineFilterPlanner).Process [C07,C14]
 //@   modifies whereArgs, ctx.id
+// a literal expression becomes a LIKE of the same polarity and case sensitivity as the filter
+//@   at doLikeVal$ a-literal-match-keeps-its-case-sensitivity: l.Op == "|~" ==> arg0 == (reCaseInsensitive(l.Val) ? "ilike" : "like")
+//@   at doLikeVal$ a-negated-literal-match-keeps-its-case-sensitivity: l.Op == "!~" ==> arg0 == (reCaseInsensitive(l.Val) ? "notILike" : "notLike")
 //@   check regex-negation: result1 == nil && len(whereArgs) == 1 && typeis(whereArgs[0], "*sql.LogicalOp") && len(unbox(whereArgs[0], "*sql.LogicalOp").clauses) == 2 &&
 //@         typeis(unbox(whereArgs[0], "*sql.LogicalOp").clauses[0], "*sqlMatch") ==> isIntCmp(whereArgs[0]) && opOf(whereArgs[0]) == "==" && intOf(whereArgs[0]) == (l.Op == "!~" ? 0 : 1)
 //@   replay:
